@@ -43,6 +43,20 @@ func (c Conc) Key(tok string) []byte {
 func (c Conc) Val(tok string) []byte {
 	n := 0
 	fmt.Sscanf(strings.TrimLeft(tok, "v"), "%d", &n)
+	if strings.HasPrefix(c.Class, "edge:") {
+		// size sweep: value token v<n> is base+n bytes long (base from the class name): the classes "edge:<base>" for a range of
+		// bases cover every length around a format boundary (log fragment 32 KB, log buffer / table block 64 KB)
+		base := 0
+		fmt.Sscanf(c.Class[5:], "%d", &base)
+		b := make([]byte, base+n)
+		x := c.Seed*1000003 + uint64(n)*7919 + uint64(base) + 1
+		for i := range b {
+			x = x*6364136223846793005 + 1442695040888963407
+			b[i] = byte(x >> 56)
+		}
+		copy(b, []byte(tok+"|"))
+		return b
+	}
 	switch c.Class {
 	case "binary":
 		if n == 1 {
